@@ -473,6 +473,13 @@ def _surely_none(v: ast.AST) -> Optional[bool]:
         return False
     if isinstance(v, ast.UnaryOp) and isinstance(v.op, ast.Not):
         return False
+    if isinstance(v, ast.Call) and isinstance(v.func, ast.Attribute) and v.func.attr in (
+            "strip", "lstrip", "rstrip", "lower", "upper", "title", "replace", "split", "rsplit", "partition", "rpartition", "splitlines",
+            "encode", "decode", "copy", "keys", "values", "items", "group", "groups", "findall"):
+        return False                                  # str / dict / match methods never return None
+    if isinstance(v, ast.Call) and isinstance(v.func, ast.Name) and v.func.id in ("str", "int", "float", "len", "list", "tuple", "dict", "set",
+                                                                                   "sorted", "bool", "repr", "range", "enumerate", "zip"):
+        return False
     return None
 
 
